@@ -253,10 +253,29 @@ func runC11(r *Run) {
 	si := t.Draw(len(c11Subs))
 	// random runs are biased towards valid requests (the interesting
 	// hijack / pipelining path); enumerated prefixes force 0 here
-	if t.Draw(5) >= 3 {
+	// 25% unconstrained (mostly several faults at once), 35% valid requests, 40% valid in
+	// every dimension but one, so that one fault is not masked by another
+	if b := t.Draw(20); b >= 5 {
+		vm, vv, vc, vu, vw, vk := mi, vi, ci, ui, wi, ki
 		mi, vi = 0, 0
 		ci, ui, wi = ci%6, ui%5, 0
 		ki = []int{0, 6}[ki%2]
+		if b >= 12 {
+			switch t.Draw(6) {
+			case 0:
+				mi = vm
+			case 1:
+				vi = vv
+			case 2:
+				ci = vc
+			case 3:
+				ui = vu
+			case 4:
+				wi = vw
+			case 5:
+				ki = vk
+			}
+		}
 	}
 	nPipe := t.Draw(3)
 	origin := t.Draw(3) // 0 none, 1 same host, 2 same host upper case
